@@ -5,6 +5,7 @@ use serde_json::{json, Value};
 use std::io::Write;
 
 pub mod c01;
+pub mod c04;
 
 pub struct Tracer { f: std::io::BufWriter<std::fs::File>, pub n: usize }
 impl Tracer {
@@ -25,6 +26,7 @@ pub fn main(a: &[String]) {
     let mut r = Rng::new(seed);
     match driver {
         "c01" => c01::drive(&mut t, &mut r, n),
+        "c04" => c04::drive(&mut t, &mut r, n),
         _ => { eprintln!("unknown driver {}", driver); std::process::exit(2); }
     }
     t.f.flush().unwrap();
